@@ -658,7 +658,9 @@ theorem dumpStr_agree (m q : Store) (h : Agree m q) : dumpStr m = dumpStr q := b
     funext g
     rw [h.relays g.gid, findGroupNostr_agree m q h g.nid]
     simp only [groupSecrets, listing, groupMsgs, snapList, h.secrets, h.msgs, h.snaps]
+  have hfn : findGroupNostr m = findGroupNostr q := funext (findGroupNostr_agree m q h)
   simp only [dumpStr, hfun, h.groups, h.pms, h.welcomes, h.pws, h.mls]
+  simp only [hfn]
 
 
 theorem step_agree' (m q : Store) (h : Agree m q) (op : Op) (hw : WL m op = true) :
